@@ -197,6 +197,8 @@ def load_program(repo=REPO, ndebug=True, witness_units=("instantiate.cpp",), ver
     from . import inline
     prog.inlined = []
     gone = inline.inline_program(raw, log=prog.inlined) if inline_helpers else set()
+    if inline_helpers:
+        inline.dealias_new_references(raw)
     for sig, f in raw.items():
         if sig in gone:
             continue
